@@ -25,6 +25,15 @@ func init() {
 
 var c08Tab *routing.Table
 
+// c08Mgr owns c08Tab: the table is the Manager's, so that `mlook` goes through Manager.Lookup, the
+// entry point the agent's dial path uses.
+var c08Mgr *routing.Manager
+
+func c08Fresh(self uint64) (*routing.Manager, *routing.Table) {
+	m := routing.NewManager(c08ID(self))
+	return m, m.Table()
+}
+
 // c08ID maps the small integers of the op script to agent IDs (and back).
 func c08ID(n uint64) identity.AgentID {
 	var id identity.AgentID
@@ -115,10 +124,11 @@ func c08Dump(t *routing.Table) string {
 	var gs [][2]string
 	for k, rs := range routing.C08Groups(t) {
 		lab := c08Label(k)
-		toks := []string{"G" + lab}
+		var es []string
 		for _, r := range rs {
-			toks = append(toks, c08RouteStr(r))
+			es = append(es, c08RouteStr(r))
 		}
+		toks := append([]string{"G" + lab}, c08NormRuns(es)...)
 		gs = append(gs, [2]string{lab, strings.Join(toks, " ")})
 	}
 	return c08JoinGroups(gs)
@@ -177,21 +187,24 @@ func c08Run(line string) string {
 	f := fields(line)
 	if f[0] == "reset" {
 		c08Self = c08U(f[1])
-		c08Tab = routing.NewTable(c08ID(c08Self))
+		c08Mgr, c08Tab = c08Fresh(c08Self)
 		c08Hist = nil
 		return "ok"
 	}
 	if c08Tab == nil {
-		c08Tab = routing.NewTable(c08ID(c08Self))
+		c08Mgr, c08Tab = c08Fresh(c08Self)
+	}
+	if f[0] == "mlook" {
+		return c08Opt(c08Mgr.Lookup(net.IP(unhexTok(f[1]))))
 	}
 	if f[0] == "race" {
 		hist := c08Hist
 		out := c08Race(line, false, func() (func(string), func() string, func()) {
-			t := routing.NewTable(c08ID(c08Self))
+			m, t := c08Fresh(c08Self)
 			for _, h := range hist {
 				c08Do(t, fields(h))
 			}
-			return func(op string) { c08Do(t, fields(op)) }, func() string { return c08Dump(t) }, func() { c08Tab = t }
+			return func(op string) { c08Do(t, fields(op)) }, func() string { return c08Dump(t) }, func() { c08Mgr, c08Tab = m, t }
 		})
 		c08Hist = append(c08Hist, c08RaceOps(line)...)
 		return out
@@ -367,7 +380,7 @@ func c08GenCase(w *bufio.Writer, r *rng, nops, agents, npool int) {
 		case k < 44 && last != "":
 			fmt.Fprintln(w, last) // exact duplicate: must be refused (same sequence, same metric)
 		case k < 64:
-			fmt.Fprintf(w, "look %s\n", hexTok(c08PickAddr(r, pool)))
+			fmt.Fprintf(w, "%s %s\n", r.pickS("look", "look", "mlook"), hexTok(c08PickAddr(r, pool)))
 		case k < 69:
 			fmt.Fprintf(w, "lookall %s\n", hexTok(c08PickAddr(r, pool)))
 		case k < 76:
@@ -523,8 +536,50 @@ func c08GenRace(w *bufio.Writer, r *rng) {
 	fmt.Fprintf(w, "look %s\nhas %s %d\nrm %s %d\nlook %s\nhas %s %d\nsize\n", addr, p, o, p, o, addr, p, o)
 }
 
+// c08GenTies: one network announced by n > 12 origins with only a handful of metrics, so that the
+// slice holds long runs of equal metric and Go's sort.Slice (pdqsort beyond 12 entries, not
+// stable) orders them differently from the stable model: lookups must answer a member of the
+// first run (the model prints `anyof` over it), dumps are compared with runs normalised.
+// Followed by refreshes into an occupied metric, withdrawals, disconnects, cleanup, and the slice
+// shrinking back below 13.
+func c08GenTies(w *bufio.Writer, r *rng, n int) {
+	fmt.Fprintln(w, "reset 1")
+	p, addr := "0a010203 8 32", "0a090909"
+	if r.chance(30) {
+		p, addr = "20010db8000000000000000000000001 32 128", "20010db8000000000000000000000009"
+	}
+	for i := 0; i < n; i++ {
+		fmt.Fprintf(w, "add %s %d %d %d 5 %d\n", p, 2+i%7, 100+i, r.pick(1, 2, 2, 3), 100+i)
+		if i%6 == 5 {
+			fmt.Fprintf(w, "look %s\n", addr)
+		}
+	}
+	fmt.Fprintf(w, "look %s\nget %s\nsize\n", addr, p)
+	for i := 0; i < 30; i++ {
+		o := 100 + r.intn(n)
+		switch r.intn(6) {
+		case 0, 1: // refresh: newer sequence, a metric others hold too
+			fmt.Fprintf(w, "add %s %d %d %d %d %d\n", p, 2+r.intn(7), o, r.pick(1, 1, 2, 3), 6+i, o)
+		case 2, 3:
+			fmt.Fprintf(w, "rm %s %d\n", p, o)
+		case 4:
+			fmt.Fprintf(w, "disc %d\n", 2+r.intn(7))
+		default:
+			fmt.Fprintf(w, "age 1\nadd %s 3 %d 1 %d %d\nclean 0\n", p, o, 100+i, o)
+		}
+		fmt.Fprintf(w, "look %s\nget %s\n", addr, p)
+	}
+}
+
 func c08Gen(w *bufio.Writer, seed int64, tier string) {
 	r := newRng(c08Mix(seed))
+	ties := 2
+	if tier == "thorough" {
+		ties = 25
+	}
+	for c := 0; c < ties; c++ {
+		c08GenTies(w, r, 14+r.intn(40))
+	}
 	// concurrency cases: a few in quick, more in thorough and in the failing-input search (vlib's
 	// search uses seeds >= 1000)
 	races := 8
